@@ -349,7 +349,7 @@ def _near(f2):
 
 
 @clause('C13.anova2.only_near', funcs=('anova.ANOVA.cores', 'anova.ANOVA.cores_2', 'anova._second_order_2_tt',
-                                        'act_many.add_many'))
+                                        'act_many.add_many'), replay_only=True)
 def anova2_only_near(shape, how, ykind, seed, aseed):
     """ANOVA(order=2).cores(r, 0, only_near=True) with a rank that cuts nothing: the tensor is the constant plus the
     per-mode terms plus the pair terms of NEIGHBOURING modes (k, k+1) only, at every multi-index of the observed
